@@ -32,13 +32,15 @@ func (ctl *HTTPGroupController) Register(
 	routeConfig vhost.RouteConfig,
 ) (err error) {
 	indexKey := group
+	// Hold the controller lock until the proxy has joined the group, so that the group
+	// can't be emptied and removed by a concurrent UnRegister in between.
 	ctl.mu.Lock()
+	defer ctl.mu.Unlock()
 	g, ok := ctl.groups[indexKey]
 	if !ok {
 		g = NewHTTPGroup(ctl)
 		ctl.groups[indexKey] = g
 	}
-	ctl.mu.Unlock()
 
 	return g.Register(proxyName, group, groupKey, routeConfig)
 }
